@@ -10,7 +10,7 @@ TEXT = {
  "C04": ("Completeness and order-independence theorems for the two pair enumerators (definitions shared with the executable world model), one Gen = Canon (documented form) theorem per regenerated formula; order oracle compares constraint multisets under permuted declaration orders. Partial: sufficiency (converse interpolation) is literature-trusted.", "6 C04"),
  "C05": ("dense_correct / sparse_correct / sparse_lower for every duplicate-free decomposition and symmetric G; collect+tee stream compares the sent list, dense matrices and the MOSEK Task call list of the real wrappers with the model; translator oracle evaluates the real matrices exactly.", "6 C05"),
  "C06": ("Homomorphism, comparison and well-formedness theorems on the literal dictionary compositions of the overloads; tree stream is bit-exact model = implementation; direct oracles: exact evaluation of random trees and the full operator x operand-kind table.", "6 C06"),
- "C07": ("One-step and loop theorems on the value-level function machine (oracleLeafA_spec, distribute_spec, classify_perm, addPointA_composite_spec, sum_consistent_*), run beside the handle-level world and the implementation by the oracle stream. Partial: the global invariant over all op sequences is not yet closed in Lean; exact arithmetic.", "6 C07"),
+ "C07": ("run_inv: for every world of declared leaf/composite functions and EVERY finite sequence of oracle / gradient / value calls, every triplet recorded on a composite is the weighted sum of triplets recorded at the same point on its terms and all stored dictionaries stay well formed (induction over the call list; oracleA_inv, addPointA_composite_inv, distribute_spec, classify_perm, combine specs), on the value-level function machine that the oracle stream runs beside the handle-level world and the implementation. Partial: stationary_point / fixed_point / steps only by one-step theorems and streams; value uniqueness not closed as a global invariant; exact arithmetic.", "6 C07"),
  "C08": ("den_* theorems on the step formula functions the executable step models are built from (returned-point relations, side constraints of every option), real_sound for proximal / linear-optimisation / inexact-gradient steps; steps stream compares returned points, recorded samples, constraints, names, counters with the real steps; exact-evaluation oracle re-derives the documented relations independently. Partial: line-search, Bregman and inexact-prox real sides not formalised.", "6 C08"),
  "C09": ("pipeline_sound: for every real execution (actual vectors in any inner-product space) at whose Gram matrix the sent constraints hold, performance <= tau under the certificate identity (cert_sound + Matrix.posSemidef_gram); constraint validity for members comes from the C03/C08 theorems. Supported by independent NumPy runs of 10 method families on concrete members. Partial: fidelity of each example script to its named method is only sampled.", "6 C09"),
  "C10": ("Mostly correspondence: 19 published closed forms transcribed as executable Lean definitions with decidable validity ranges, compared with the examples on parameter grids inside those ranges; all 103 suite calls against a frozen claim table; equivalent formulations. Lean proves only that the gradient-descent contraction rate is attained by real members and small algebraic facts; SDP-optimum = closed-form is NOT formalised.", "6 C10"),
